@@ -3,7 +3,8 @@
 // ops:  scenario <id>
 //       reset0 <t32|t64> <qsize> <mode> <now> <src:namehex>...   (a node constructed at time <now>; fields filled in by the harness)
 //       t <ms> | poll | run <n> (n times: poll, advance 1 ms) | acc <bits> | accdef <0|1> | canopen <0|1> | claim <dev>
-//       hbset <interval> <offset> <dev|-1> | hbforce | hbdev <dev> | get | m64 | devlist <originA> <originB>
+//       hbset <interval> <offset> <dev|-1> | hbforce | hbdev <dev> | get | m64
+//       devlist <originA> <originB>   (device-list request pacing probe run from two origins, traces compared; oracle only)
 //       gfreq <dev|-1> <interval ms> <offset 10ms> <pairs>   (PGN 126208 request for PGN 126993 from source 50 arrives, then one poll;
 //                                                           output = the heartbeat frames only, acknowledgements are C09's)
 // C12 oracle: heartbeat grid computed from the observed open time, the default interval 60 s, the offset in force after open
@@ -233,7 +234,7 @@ static void emit(const std::string &out) {
 
 static std::string framesOut(std::vector<Frame> &fr) { std::string s; for (auto &f : fr) { if (!s.empty()) s += ' '; s += frameStr(f); } return s.empty() ? "-" : s; }
 
-static int devlistProbe(uint64_t origin);
+struct DlEv; static void devlistCompare(uint64_t oa, uint64_t ob);
 static void beforePoll() { for (int d = 0; d < nDev && d < 16; d++) claimOnBefore[d] = N->claimTimerOn(d); }
 static void trackOpen(bool wasOpen) { if (!wasOpen && N->isOpen()) { onOpened(); C.count("opened"); } }
 
@@ -244,9 +245,7 @@ static void exec(const std::string &line) {
     // devlist <originA> <originB>: the same device-list scenario from two clock origins
     finishGroup(); C.op("%s", line.c_str());
     uint64_t oa = strtoull(w[1].c_str(), 0, 10), ob = strtoull(w[2].c_str(), 0, 10);
-    int ra = devlistProbe(oa), rb = devlistProbe(ob);
-    C.count("devlist_probes");
-    if (ra != rb) C.fail("C13:devlist-zero-sentinel", "product information requested %d time(s) in 10 s from origin %llu, %d time(s) from origin %llu", ra, (unsigned long long)oa, rb, (unsigned long long)ob);
+    devlistCompare(oa, ob);
     delete N; N = nullptr; C.out("ok"); return;
   }
   if (w[0] == "scenario") { finishGroup(); groupId = w.size() > 1 ? w[1] : "?"; C.op("%s", line.c_str()); C.out("ok"); return; }
@@ -426,28 +425,52 @@ static void exec(const std::string &line) {
 }
 
 
-// ------------------------------------------------------------------------------------------------ device-list probe (C13 known finding)
-// A foreign device (source 50) claims its address and keeps talking; count the product-information requests (ISO request for
-// PGN 126996 to 50) the device list sends in the next 10 s. The scenario is identical for every clock origin.
-static int devlistProbe(uint64_t origin) {
+// ------------------------------------------------------------------------------------------------ device-list probe (C13)
+// Two foreign devices (sources 50, 51) claim their addresses and keep talking (a frame every 20 ms) but never answer. The device
+// list asks each of them for product information, then configuration information, then the PGN lists (4 attempts each, 1 s apart).
+// Trace = (relative ms, requested PGN, destination) of every ISO request the node sends in 16 s. Identical for every clock origin.
+struct DlEv { uint32_t t; unsigned long pgn; unsigned dst; };
+static std::vector<DlEv> devlistProbe(uint64_t origin) {
   g_now = origin;
   Node *n = new Node(); n->SetDeviceCount(1); n->SetDeviceInformation(4711, 130, 25, 2046, 4, 0);
   n->SetMode(tNMEA2000::N2km_ListenAndNode, 30); n->EnableForward(false); n->SetN2kCANSendFrameBufSize(40);
   tN2kDeviceList *dl = new tN2kDeviceList(n);
   openAndSettle(*n, 700);
-  const unsigned char name[8] = {0x39, 0x30, 0x20, 0x11, 0x00, 0x82, 0x32, 0xc0};
-  n->rx((6UL << 26) | (0xEEUL << 16) | (0xffUL << 8) | 50UL, 8, name);
+  const unsigned char name50[8] = {0x39, 0x30, 0x20, 0x11, 0x00, 0x82, 0x32, 0xc0}, name51[8] = {0x3a, 0x30, 0x20, 0x11, 0x00, 0x82, 0x32, 0xc0};
+  n->rx((6UL << 26) | (0xEEUL << 16) | (0xffUL << 8) | 50UL, 8, name50);
+  n->rx((6UL << 26) | (0xEEUL << 16) | (0xffUL << 8) | 51UL, 8, name51);
   const unsigned char hb[8] = {0x70, 0x17, 0x00, 0xff, 0xff, 0xff, 0xff, 0xff};
-  int req = 0;
-  for (int i = 0; i < 10000; i++) {
-    if (i % 100 == 50) n->rx((7UL << 26) | (0x1F011UL << 8) | 50UL, 8, hb);
+  std::vector<DlEv> tr;
+  uint64_t t0 = g_now;
+  for (int i = 0; i < 16000; i++) {
+    if (i % 20 == 7) n->rx((7UL << 26) | (0x1F011UL << 8) | (50UL + (i / 20) % 2), 8, hb);
     n->sent.clear(); n->ParseMessages();
-    for (auto &f : n->sent) if (((f.id >> 16) & 0xff) == 0xEA && ((f.id >> 8) & 0xff) == 50 && f.len >= 3 && f.buf[0] == 0x14 && f.buf[1] == 0xF0 && f.buf[2] == 0x01) req++;
+    for (auto &f : n->sent) if (((f.id >> 16) & 0xff) == 0xEA && f.len >= 3)
+      tr.push_back({(uint32_t)(g_now - t0), (unsigned long)f.buf[0] | ((unsigned long)f.buf[1] << 8) | ((unsigned long)f.buf[2] << 16), (unsigned)((f.id >> 8) & 0xff)});
     g_now++;
   }
   n->sent.clear();
   delete dl; delete n;
-  return req;
+  return tr;
+}
+static const char *dlKind(unsigned long pgn) { return pgn == 126996UL ? "product-info" : pgn == 126998UL ? "config-info" : pgn == 126464UL ? "pgn-list" : pgn == 60928UL ? "name" : "other"; }
+
+static void devlistCompare(uint64_t oa, uint64_t ob) {
+  std::vector<DlEv> a = devlistProbe(oa), b = devlistProbe(ob);
+  C.count("devlist_probes", 2); C.count("devlist_requests_seen", (long)a.size());
+  bool kinds[3] = {false, false, false};
+  for (auto &e : a) { if (e.pgn == 126996UL) kinds[0] = true; if (e.pgn == 126998UL) kinds[1] = true; if (e.pgn == 126464UL) kinds[2] = true; }
+  size_t n = a.size() < b.size() ? a.size() : b.size(), i = 0;
+  while (i < n && a[i].t == b[i].t && a[i].pgn == b[i].pgn && a[i].dst == b[i].dst) i++;
+  if (i < a.size() || i < b.size()) {
+    const DlEv *x = i < a.size() ? &a[i] : &b[i];
+    char ea[64] = "<none>", eb[64] = "<none>";
+    if (i < a.size()) snprintf(ea, sizeof ea, "+%u ms %s to %u", a[i].t, dlKind(a[i].pgn), a[i].dst);
+    if (i < b.size()) snprintf(eb, sizeof eb, "+%u ms %s to %u", b[i].t, dlKind(b[i].pgn), b[i].dst);
+    C.fail(std::string("C13:origin-dependence:") + FLAVOR + ":devlist:" + dlKind(x->pgn), "device-list requests from origin %llu: %zu, from origin %llu: %zu; first difference at request %zu: %s / %s",
+           (unsigned long long)oa, a.size(), (unsigned long long)ob, b.size(), i, ea, eb);
+  } else if (!(kinds[0] && kinds[1] && kinds[2])) C.fail("harness:devlist-kinds", "probe did not exercise all three request kinds (%d %d %d)", kinds[0], kinds[1], kinds[2]);
+  C.cases++;
 }
 
 // ------------------------------------------------------------------------------------------------ generators
@@ -596,9 +619,15 @@ int main(int argc, char **argv) {
     }
     finishGroup();
   }
-  // the device list's "never requested" stamp 0 (known finding, replayed every run)
-  exec("devlist 1000 2147484648");
-  exec("devlist 1000 4294966296");
+  // the device list's request pacing (product information, configuration information, PGN lists) from origin 1000 and from
+  // origins 2^31 +- k, 2^32 - k (k across the 16.7 s of the probe)
+  {
+    std::vector<uint64_t> os = {0x80000000ULL + 1000, 0x80000000ULL - 5000, 0x80000000ULL - 500, 0x100000000ULL - 8000, 0x100000000ULL - 500, 0x100000000ULL - 20000};
+    int extra = C.thorough ? 12 : 3;
+    for (int i = 0; i < extra; i++) os.push_back(i % 3 == 0 ? 0x80000000ULL - R.below(17000) : i % 3 == 1 ? 0x80000000ULL + R.below(17000) : 0x100000000ULL - 1 - R.below(17000));
+    if (!T32B) { os.push_back(0x100000000ULL + 12345); os.push_back((1ULL << 40) + R.below(100000)); }
+    for (uint64_t o : os) exec("devlist 1000 " + std::to_string(o));
+  }
   int nSparse = C.thorough ? 400 : 60, nDense = C.thorough ? 150 : 20, nBp = C.thorough ? 80 : 10;
   for (int i = 0; i < nSparse; i++) scenario(R, 0);
   for (int i = 0; i < nDense; i++) scenario(R, 1);
